@@ -97,7 +97,7 @@ func fatal2(f string, a ...any) int {
 
 func needRace(prop string) bool {
 	switch prop {
-	case "C06", "C12", "C20", "C03", "C19":
+	case "C06", "C12", "C20", "C03", "C19", "C17":
 		return true
 	}
 	return false
